@@ -349,3 +349,54 @@ Proof.
 Qed.
 
 End Steps.
+
+(* ------------------------------------------------------------------ *)
+(** * Lines delivered in pieces (argument file lines, environment variable) *)
+
+Lemma spell_app c us1 ws1 : spell c us1 ws1 -> forall us2 ws2, spell c us2 ws2 -> spell c (us1 ++ us2) (ws1 ++ ws2).
+Proof.
+  induction 1; intros us2 ws2 Hs2; cbn [app]; try rewrite <- ?app_assoc; cbn [app].
+  - exact Hs2.
+  - apply sp_long_flag; auto.
+  - apply sp_long_eq; auto.
+  - apply sp_long_sep; auto.
+  - apply sp_flags; auto.
+  - apply sp_glued; auto.
+  - apply sp_short_sep; auto.
+Qed.
+
+Fixpoint spell_lines (c : cfg) (uss : list (list use)) (lines : list (list str)) : Prop :=
+  match uss, lines with
+  | [], [] => True
+  | us :: ur, l :: lr => spell c us l /\ spell_lines c ur lr
+  | _, _ => False
+  end.
+
+Lemma eval_lines_spelled c (Hf : fixed_notify c = true) : forall uss lines s,
+  spell_lines c uss lines -> eval_lines c s lines = fold_uses c s true (concat uss).
+Proof.
+  induction uss as [|us ur IH]; intros [|l lr] s H; cbn in H; try contradiction; [reflexivity|].
+  destruct H as [H1 H2]. cbn [eval_lines concat].
+  rewrite (eval_words_spelled c Hf true us l s H1), fold_uses_app.
+  destruct (fold_uses c s true us); cbn [bind]; auto.
+Qed.
+
+(** Arguments delivered through an argument file (already split into words
+    per line), an environment variable and the command line are evaluated as
+    ONE sequence of uses, in the order file, environment, command line - by the
+    same rules; only the cardinality counting is switched off for the first
+    two sources, so that a later value on the command line may override. *)
+Theorem eval_arguments_sources c (Hf : fixed_notify c = true) inits uss lines envu envw argu argw :
+  spell_lines c uss lines -> spell c envu envw -> spell c argu argw ->
+  eval_arguments c inits lines (Some envw) argw =
+  do s1 <- fold_uses c (init_state c inits) true (concat uss ++ envu);
+  do s2 <- fold_uses c s1 false argu;
+  do _ <- final_checks c s2; Ok s2.
+Proof.
+  intros Hl He Ha. unfold eval_arguments.
+  rewrite (eval_lines_spelled c Hf uss lines _ Hl), fold_uses_app.
+  destruct (fold_uses c (init_state c inits) true (concat uss)) as [s0|e|f]; cbn [bind]; auto.
+  rewrite (eval_words_spelled c Hf true envu envw s0 He).
+  destruct (fold_uses c s0 true envu) as [s1|e|f]; cbn [bind]; auto.
+  rewrite (eval_words_spelled c Hf false argu argw s1 Ha). reflexivity.
+Qed.
